@@ -24,6 +24,11 @@ CASE (plain JSON-able dict)
              value of a listed attribute (setup / task_dep / calc_dep / file_dep / targets) is equal get ONE list object
              ('empty': also the empty value is passed explicitly and shared) -- doit must copy, not alias,
    'meta_names': True (optional, gen_case(p_meta_names=...)): task names contain [ ] ? { } % (literal names, never patterns),
+   'history': {'prerun_sel': [names]} (optional, round 6, gen_case(p_history=...) / apply_history): the measured run is
+             NOT the first one on its DB -- run_impl first executes `doit run <prerun_sel>` (serial, same dodo, silent
+             recorder; _history_prerun).  Tasks with 'status': 'utd' + 'utd_how': 'run_once' get uptodate=[run_once]: the
+             pre-run must execute them successfully (else HistoryMismatch), in the measured run they are up-to-date with
+             SAVED VALUES -- expand() lets them deliver their calc_res / getargs values (model: calcRes of a `good` task),
    'model': {...}}                   # model-level input computed by expand() (own expansion, never read back from doit)
   TASK = {'name': str, 'kind': 'task'|'group'|'sub', 'group': basename (sub only),
           'task_dep': [names], 'setup': [names], 'calc_dep': [names], 'result_dep': [names],
@@ -164,11 +169,13 @@ def expand(case):
         calc_dep.append(sorted(set(idx[x] for x in t['calc_dep'])))
     always = bool(case.get('always'))
     status = _effective_status(case, idx, always)
+    saved = saved_values_tasks(case)      # case['history']: up-to-date tasks whose values an EARLIER run left in the DB
     calc_res = []
     for i, t in enumerate(tasks):
         cr = t.get('calc_res')
         delivers = (cr is not None and not cr.get('as_str') and t['outcome'] == 'ok' and not t['ignored']
-                    and (status[i] == 'run' or (always and status[i] == 'utd')))
+                    and (status[i] == 'run' or (always and status[i] == 'utd')
+                         or (status[i] == 'utd' and t['name'] in saved)))
         if not delivers:
             calc_res.append(None)
         else:
@@ -206,7 +213,7 @@ def expand(case):
             srcs = [tasks[j] for j in task_dep[idx[src]]] if s['kind'] == 'group' else [s]
             for q in srcs:
                 qs = status[idx[q['name']]]
-                runs = qs == 'run' or (always and qs == 'utd')
+                runs = qs == 'run' or (always and qs == 'utd') or (qs == 'utd' and q['name'] in saved)
                 if not (runs and q['outcome'] == 'ok' and not q['ignored'] and key == 'v' and q['kind'] != 'group'
                         and not (q.get('calc_res') or {}).get('as_str')):
                     ok = False
@@ -224,6 +231,17 @@ def expand(case):
     if any(x is not None for x in calc_res_fail):
         model['calcResFail'] = calc_res_fail        # absent = nothing of the kind (the model's default)
     return model
+
+
+def saved_values_tasks(case):
+    """names of the tasks that are up-to-date in the measured run BECAUSE an earlier run executed them successfully
+    (uptodate=[run_once]) -- their saved values are in the DB: select_task loads them into task.values, so the task
+    delivers its calc result / getargs values although it is not executed.  Only with case['history'] (see
+    apply_history / _history_prerun); without it an up-to-date task has nothing saved (fresh DB)."""
+    if not case.get('history'):
+        return frozenset()
+    return frozenset(t['name'] for t in case['tasks']
+                     if t['status'] == 'utd' and t.get('utd_how') == 'run_once' and t['kind'] != 'group')
 
 
 def _effective_status(case, idx, always):
@@ -336,7 +354,7 @@ def gen_case(rng, n_min=3, n_max=9, runner=None, nproc=None, weights=None, p_gro
              p_teardown=0.25, p_cont=0.4, p_always=0.06, p_calc_deliver=0.85, sel_mode=None, policy=None,
              allow_cycle=False, all_ok=False, p_meta_names=0.0, p_share_lists=0.0, p_combo=0.0,
              p_calc_then_fail=0.0, p_wild=0.0, p_multi_action=0.0, p_multi_teardown=0.0, p_group_late=0.0,
-             p_calc_extra=0.0):
+             p_calc_extra=0.0, p_history=0.0):
     """One random run case.  Graph: 3..9 tasks in a hidden topological order (all edges, static and delivered by calc
     results, go from later to earlier rank, so the graph is acyclic unless allow_cycle), then the definition order is
     shuffled.  Edge kinds: task_dep / setup / calc_dep / file (target->file_dep) / getargs (setup edge) / result_dep
@@ -358,7 +376,11 @@ def gen_case(rng, n_min=3, n_max=9, runner=None, nproc=None, weights=None, p_gro
     middle / last); p_multi_teardown = tasks with a teardown get 2-3 callables; p_group_late = groups with own task_dep
     yield their attributes after some of their sub-tasks; p_calc_extra = calc results get keys the dispatcher does not
     consume ('junk', 'setup'), 'uptodate': [None] / [False] (the latter changes the receivers' status, see
-    _effective_status; never towards a receiver whose status is `error`), or are returned as a str."""
+    _effective_status; never towards a receiver whose status is `error`), or are returned as a str.
+    Round-6 opt-in knob: p_history = probability that the case gets a HISTORY (apply_history): an earlier serial run on
+    the same DB executes one or two calc tasks (uptodate=[run_once]) which are therefore UP-TO-DATE in the measured run
+    and deliver their calc result from the values saved in the DB; the measured selection mostly names such a task
+    BEFORE the task that has it as calc_dep (the calc task is processed when nobody waits for it yet)."""
     w = dict(DEFAULT_WEIGHTS)
     w.update(weights or {})
     n = rng.randint(n_min, n_max)
@@ -706,7 +728,118 @@ def gen_case(rng, n_min=3, n_max=9, runner=None, nproc=None, weights=None, p_gro
                     t['calc_res'] = None
                     break
             case['model'] = expand(case)
+    # ---- opt-in (last, so that no other draw moves): a history -- calc tasks made up-to-date by an earlier run
+    if p_history and rng.random() < p_history and not allow_cycle:
+        if apply_history(case, rng):
+            _mute_file_delivery_to_utd(case)
+        case['model'] = expand(case)
     return case
+
+
+def apply_history(case, rng):
+    """Give the case a history (multi-run dimension): choose 1-2 calc tasks c (somebody has c as calc_dep, c returns a
+    non-empty dict result) whose whole dependency closure -- static and delivered -- is 'harmless' in a first run
+    (every member succeeds: outcome ok, not ignored, get_status not error, no getargs; and leaves no DB state that
+    would change a status of the measured run: no file_dep, no result_dep).  c becomes status 'utd' with
+    'utd_how': 'run_once'; case['history'] = {'prerun_sel': [the chosen tasks]} makes run_impl execute
+    `doit run <chosen>` first (see _history_prerun), after which c is up-to-date with SAVED VALUES: in the measured run
+    it delivers its calc result without being executed (Runner.select_task: task.values = dep_manager.get_values).
+    The measured selection is, mostly, changed so that c is named BEFORE a task that uses it (c is processed while
+    nobody waits for it: the result is picked up later by _node_add_wait_run(calc=True)), sometimes after it, sometimes
+    left alone.  Returns True when a history was applied."""
+    tasks = case['tasks']
+    if any('uptodate' in (t.get('calc_res') or {}) for t in tasks):
+        return False
+    idx = task_index(case)
+    m = case.get('model') or expand(case)
+    edges = dynamic_edges(_all_deliver(m, case))
+
+    def closure(i):
+        seen, todo = set(), [i]
+        while todo:
+            x = todo.pop()
+            if x in seen or x < 0 or x >= len(tasks):
+                continue
+            seen.add(x)
+            todo += list(edges[x])
+        return seen
+
+    def harmless(t):
+        return (t['outcome'] == 'ok' and not t['ignored'] and t['status'] != 'error' and not t['getargs']
+                and not t['file_dep'] and not t['result_dep'] and not t.get('calc_first'))
+
+    def repairable(t):
+        # what cannot be repaired by changing the oracle: DB state / value flow that would change the measured run
+        return not t['getargs'] and not t['result_dep'] and not [f for f in t['file_dep'] if not f.startswith('missing_')]
+    users = {}
+    for t in tasks:
+        for c in t['calc_dep']:
+            users.setdefault(c, []).append(t['name'])
+        for c in (t.get('calc_res') or {}).get('calc_dep', []):
+            users.setdefault(c, [])
+    cands = []
+    injected = {}          # calc task -> its original calc_res (restored unless the task is chosen)
+    for c in sorted(users):
+        t = tasks[idx[c]]
+        cr = t.get('calc_res')
+        if t['kind'] != 'task' or (cr and cr.get('as_str')):
+            continue
+        if not cr or not (cr.get('task_dep') or cr.get('calc_dep') or cr.get('file_dep')):
+            # a calc task that delivers nothing: let it deliver one task_dep (any task that keeps the graph acyclic)
+            others = [x['name'] for x in tasks if x['name'] != c and x['name'] not in users[c]]
+            rng.shuffle(others)
+            keep = t.get('calc_res')
+            for x in others[:4]:
+                t['calc_res'] = dict(cr or {'file_dep': [], 'calc_dep': []}, task_dep=[x])
+                if is_acyclic(dynamic_edges(_all_deliver(expand(case), case))):
+                    break
+                t['calc_res'] = keep
+            else:
+                continue
+            if t['calc_res'] is keep:
+                continue
+            injected[c] = keep
+            edges = dynamic_edges(_all_deliver(expand(case), case))
+        if all(repairable(tasks[x]) for x in closure(idx[c])):
+            cands.append(c)
+        elif c in injected:
+            t['calc_res'] = injected.pop(c)
+            edges = dynamic_edges(_all_deliver(expand(case), case))
+    if not cands:
+        return False
+    chosen = rng.sample(cands, min(len(cands), rng.choice([1, 1, 2])))
+    for c in sorted(injected):             # an injected result stays only on a chosen task
+        if c not in chosen:
+            tasks[idx[c]]['calc_res'] = injected[c]
+    edges = dynamic_edges(_all_deliver(expand(case), case))
+    if not all(repairable(tasks[x]) for c in chosen for x in closure(idx[c])):
+        for c in chosen:                   # (a result injected later widened an earlier candidate's closure)
+            if c in injected:
+                tasks[idx[c]]['calc_res'] = injected[c]
+        return False
+    for c in chosen:
+        for x in closure(idx[c]):          # the oracle of the pre-run closure: everything succeeds
+            q = tasks[x]
+            q['outcome'], q['ignored'] = 'ok', False
+            q.pop('calc_first', None)
+            if q['status'] == 'error':
+                q['status'] = 'run'
+                q['file_dep'] = [f for f in q['file_dep'] if not f.startswith('missing_')]
+    for c in chosen:
+        tasks[idx[c]]['status'] = 'utd'
+        tasks[idx[c]]['utd_how'] = 'run_once'
+    case['history'] = {'prerun_sel': list(chosen)}
+    r = rng.random()
+    use = [u for c in chosen for u in users[c]]
+    if use and r < 0.85:
+        c = chosen[0]
+        u = rng.choice(users[c] or use)
+        old = [x for x in (case.get('sel') or []) if x not in (c, u)]
+        front = [c, u] if r < 0.65 else [u, c]
+        case['sel'] = front + old[:rng.randint(0, 2)]
+        if len(chosen) > 1 and rng.random() < 0.5:
+            case['sel'].insert(rng.randint(0, len(case['sel'])), chosen[1])
+    return True
 
 
 def gen_scale_case(rng, n=None, shape=None, runner='thread', nproc=None, n_min=50, n_max=300, p_fail=0.02, p_utd=0.05):
@@ -973,6 +1106,19 @@ def count_case(st, case, obs=None):
                 st.count('calc_res:key_%s' % _k)
         if 'uptodate' in _cr:
             st.count('calc_res:uptodate_%s' % ('False' if False in _cr['uptodate'] else 'None'))
+    if case.get('history'):
+        st.count('history:prerun')
+        _sv = saved_values_tasks(case)
+        _pos = {}
+        for _i, _s in enumerate(case['sel'] if case.get('sel') is not None else [_t['name'] for _t in case['tasks']]):
+            _pos.setdefault(_s, _i)
+        for _t in case['tasks']:
+            for _c in _t['calc_dep']:
+                if _c in _sv:
+                    st.count('history:utd_calc_task_with_saved_values')
+                    if _c in _pos and _t['name'] in _pos:
+                        st.count('history:calc_task_selected_%s_its_user' %
+                                 ('BEFORE' if _pos[_c] < _pos[_t['name']] else 'after'))
     if case.get('share'):
         st.count('share:lists')
         for _a in case['share'].get('attrs', ()):
@@ -1332,7 +1478,11 @@ def build_namespace(case, rec):
                     d[k] = lst(k, t[k])
             upt = []
             if t['status'] == 'utd':
-                upt.append(True)
+                if t.get('utd_how') == 'run_once' and case.get('history'):
+                    from doit.tools import run_once
+                    upt.append(run_once)      # executed by the pre-run of case['history'], up-to-date ever after
+                else:
+                    upt.append(True)
             for r in t['result_dep']:
                 upt.append(result_dep(r))
             if upt:
@@ -1469,6 +1619,41 @@ def _reap_children():
             pass
 
 
+class HistoryMismatch(Exception):
+    """the pre-run of case['history'] did not leave the DB state the case declares (a case the generator must not
+    produce; shrink candidates that break the declaration are rejected through this exception)"""
+
+
+def _history_prerun(case):
+    """case['history'] = {'prerun_sel': [names]}: an EARLIER `doit run <prerun_sel>` of the same dodo on the same DB
+    (serial, own silent recorder, output discarded) before the measured run.  Every task with status 'utd' and
+    'utd_how': 'run_once' must be executed successfully by it: its values (incl. its calc result) are then in the DB
+    and run_once answers up-to-date in the measured run."""
+    from doit.doit_cmd import DoitMain
+    from doit.cmd_base import ModuleTaskLoader
+    global _REC
+    names = [t['name'] for t in case['tasks']]
+    want = saved_values_tasks(case)
+    sel = [x for x in (case['history'].get('prerun_sel') or []) if x in names]
+    if not want or not sel:
+        raise HistoryMismatch('history without a run_once task / pre-run selection')
+    rec0 = Recorder('mem', names)
+    _REC = rec0
+    o, e = sys.stdout, sys.stderr
+    sys.stdout, sys.stderr = io.StringIO(), io.StringIO()
+    try:
+        try:
+            DoitMain(ModuleTaskLoader(build_namespace(case, rec0))).run(['run'] + sel)
+        except BaseException:  # noqa
+            pass
+    finally:
+        sys.stdout, sys.stderr = o, e
+        _REC = None
+    done = set(names[x[1]] for x in rec0.all() if x[0] == 'success' and isinstance(x[1], int))
+    if not want <= done:
+        raise HistoryMismatch('pre-run did not execute %s successfully' % sorted(want - done))
+
+
 def run_impl(case, watchdog=None, keep_raw=True):
     """Run the real doit on the case (in-process, scratch dir, json backend) and return the observables (OBS)."""
     common.use_repo()
@@ -1496,6 +1681,9 @@ def run_impl(case, watchdog=None, keep_raw=True):
         _REC = rec
         try:
             _prepare_fs(case)
+            if case.get('history'):
+                _history_prerun(case)
+                _REC = rec
             ns = build_namespace(case, rec)
             if runner == 'thread':
                 sched = Sched(make_policy(case.get('policy')), script=case.get('schedule'), watchdog=watchdog / 2)
@@ -2218,7 +2406,8 @@ def render(case):
         if t['getargs']:
             parts.append('getargs={%s}' % ', '.join('%s: (%s, %s)' % tuple(g) for g in t['getargs']))
         if t['status'] == 'utd':
-            parts.append('uptodate=[True]')
+            parts.append('uptodate=[run_once]' if (t.get('utd_how') == 'run_once' and case.get('history'))
+                         else 'uptodate=[True]')
         orc = []
         if t['status'] == 'error':
             orc.append('get_status=error')
@@ -2232,6 +2421,9 @@ def render(case):
         if t['teardown']:
             orc.append('teardown')
         lines.append('#%d %-8s %s%s' % (n, t['name'], ' '.join(parts), ('   [' + '; '.join(orc) + ']') if orc else ''))
+    if case.get('history'):
+        lines.append('$ doit run %s      # EARLIER run on the same DB (serial, not measured): saves the values of %s'
+                     % (' '.join(case['history'].get('prerun_sel') or []), sorted(saved_values_tasks(case))))
     lines.append('$ doit ' + ' '.join(argv_of(case)))
     if case['runner'] == 'thread':
         lines.append('schedule policy: %s%s' % (case.get('policy'),
@@ -2346,6 +2538,10 @@ def closure_of(case, trace):
     succeeded = set(e[1] for e in trace if e[0] == 'success')
     failed_run = _failed_runs(trace)
     res_fail = model.get('calcResFail') or [None] * model['n']
+    # case['history']: an up-to-date task whose values an earlier run saved delivers them (select_task loads them)
+    saved = saved_values_tasks(case)
+    utd_saved = set(e[1] for e in trace if e[0] == 'skip_uptodate' and isinstance(e[1], int)
+                    and case['tasks'][e[1]]['name'] in saved) if saved else set()
     clo = set()
     todo = [s for s in model['sel'] if s >= 0]
     calc_of = {}
@@ -2369,7 +2565,7 @@ def closure_of(case, trace):
                 calcs += res_fail[c]['calc']
                 continue
             cr = case['tasks'][c].get('calc_res')
-            if cr is None or cr.get('as_str') or c not in succeeded:
+            if cr is None or cr.get('as_str') or not (c in succeeded or (c in utd_saved and model['calcRes'][c])):
                 continue
             new += _res_task_ids(case, cr)
             new += [own[f] for f in cr.get('file_dep', []) if f in own]
@@ -2638,7 +2834,13 @@ def run_checked(case, st=None):
     """run_impl, repeated once when doit crashed before the first event: a deterministic crash of doit reproduces (and
     is reported); a transient failure of the environment (e.g. the harness source being rewritten while
     inspect.getsourcelines reads it, EMFILE on a loaded machine) does not and is only counted"""
-    obs = run_impl(case, keep_raw=False)
+    try:
+        obs = run_impl(case, keep_raw=False)
+    except HistoryMismatch as ex:
+        # a generator / seed error, made loud: judged as an aborted run
+        if st is not None:
+            st.count('history:prerun_mismatch_MACHINERY')
+        return {'trace': [], 'exit': None, 'err': 'history-mismatch', 'stderr': str(ex), 'ms': 0.0}
     if obs['err'] and obs['err'].startswith('crash:') and not obs['trace']:
         again = run_impl(case, keep_raw=False)
         if again['err'] != obs['err']:
